@@ -139,4 +139,32 @@ theorem split_early_latest' {c : Chunk} {t : Int} {c1 c2 : Chunk} (hwf : c.wf = 
   · have := no_straddler_of_sep hl hr
     rwa [ha] at this
 
+/-! ### a chunk made by `concatenate(allow_superrun=True)` that cannot be split again (open finding) -/
+
+def exA : Chunk := ⟨"d", "k", some "_s", 0, 5, [⟨1,2,0⟩], some [⟨"a", 0, 5⟩], [⟨"_s", 0, 5⟩], 1000⟩
+def exB : Chunk := ⟨"d", "k", some "_t", 5, 9, [⟨6,7,1⟩], some [⟨"b", 5, 9⟩], [⟨"_t", 5, 9⟩], 1000⟩
+def exP : Chunk := ⟨"d", "k", none, 0, 9, [⟨1,2,0⟩, ⟨6,7,1⟩], some [⟨"a", 0, 5⟩, ⟨"b", 5, 9⟩], [⟨"_s", 0, 5⟩, ⟨"_t", 5, 9⟩], 1000⟩
+
+theorem exP_is_product : concatenate [exA, exB] true = .ok exP := by
+  have s1 : sortRuns [⟨"a", 0, 5⟩, ⟨"b", 5, 9⟩] = [⟨"a", 0, 5⟩, ⟨"b", 5, 9⟩] :=
+    sortRuns_of_sortedLex (by decide) (by decide)
+  have s2 : sortRuns [⟨"_s", 0, 5⟩, ⟨"_t", 5, 9⟩] = [⟨"_s", 0, 5⟩, ⟨"_t", 5, 9⟩] :=
+    sortRuns_of_sortedLex (by decide) (by decide)
+  have h1 : allEq ([exA, exB].map (·.dataType)) = true := by decide
+  have h2 : allEq ([exA, exB].map (·.runId)) = false := by decide
+  have h3 : concatRun [exA, exB] exA = .ok (none, some [⟨"_s", 0, 5⟩, ⟨"_t", 5, 9⟩]) := by decide +kernel
+  have h4 : concatSub [exA, exB] = .ok (some [⟨"a", 0, 5⟩, ⟨"b", 5, 9⟩]) := by decide +kernel
+  have h5 : outOfOrder 0 [exA, exB] = false := by decide
+  have hmk : mkChunk "d" "k" none 0 9 [⟨1,2,0⟩, ⟨6,7,1⟩] (some [⟨"a", 0, 5⟩, ⟨"b", 5, 9⟩])
+      (some [⟨"_s", 0, 5⟩, ⟨"_t", 5, 9⟩]) 1000 = .ok exP := by
+    rw [mkChunk_eq]
+    simp only [s1]
+    have ho1 : runsOverlap [⟨"a", 0, 5⟩, ⟨"b", 5, 9⟩] = false := by decide
+    have ho2 : runsOverlap [⟨"_s", 0, 5⟩, ⟨"_t", 5, 9⟩] = false := by decide
+    have hl : lastEndMax [⟨1,2,0⟩, ⟨6,7,1⟩] = some 7 := by decide
+    simp [ho1, ho2, hl, mkStage2, mkStage3, mkStage4, s2, exP]
+  rw [concatenate_eq, h1, h2, h3, h4]
+  simp only [bind, Except.bind, h5, Bool.not_true, Bool.not_false, Bool.false_eq_true, if_false, Bool.true_and]
+  exact hmk
+
 end Strax
